@@ -80,6 +80,14 @@ func CheckStorageHealth(storage SlabStorage, expectedNumberOfRootSlabs int) (map
 		}
 	}
 
+	// Every referenced slab must be present in storage.  A reference to a missing
+	// leaf slab is otherwise never followed because traversal starts at the leaves.
+	for childID, parentID := range parentOf {
+		if _, ok := slabs[childID]; !ok {
+			return nil, NewSlabNotFoundErrorf(childID, "slab %s referenced by %s is not found in storage", childID, parentID)
+		}
+	}
+
 	rootsMap := make(map[SlabID]struct{})
 	visited := make(map[SlabID]struct{})
 	var id SlabID
